@@ -5,6 +5,9 @@ go 1.18
 require (
 	github.com/koykov/decoder v0.0.0
 	github.com/koykov/inspector v1.4.6
+	github.com/koykov/jsonvector v1.2.5
+	github.com/koykov/vector v1.2.6
+	github.com/koykov/x2bytes v1.0.2
 )
 
 require (
@@ -16,11 +19,8 @@ require (
 	github.com/koykov/clock v1.1.3 // indirect
 	github.com/koykov/entry v1.0.2 // indirect
 	github.com/koykov/indirect v1.0.1 // indirect
-	github.com/koykov/jsonvector v1.2.5 // indirect
 	github.com/koykov/openrt v0.0.0-20240411200908-3abd933415e1 // indirect
-	github.com/koykov/vector v1.2.6 // indirect
 	github.com/koykov/vector_inspector v1.0.6 // indirect
-	github.com/koykov/x2bytes v1.0.2 // indirect
 	golang.org/x/sys v0.10.0 // indirect
 	golang.org/x/tools v0.11.1 // indirect
 )
